@@ -2,6 +2,8 @@
 from mirq import callee, fmt_origin, origin_calls, strip_refs
 from props import c06, net
 
+THOROUGH_CONFIGS = ["default", "blocking", "websocket", "all"]
+
 EXPLANATION = (
     "R20.1 on the MIR of WebsocketStream::poll_read: the next message is polled only after the adaptor buffer was found empty (or the "
     "caller has no room); a Binary payload is appended whole to the adaptor buffer with Extend::extend (no truncation, no fixed-size "
